@@ -6,7 +6,7 @@
    ([typed_x]) is a hypothesis, decidable by [typed_xb] and evaluated by the harness on every generated history.
    Only statements live here. *)
 Require Import Base Cbor EncoderModel DecoderModel DecoderProofs Schema SchemaProofs Timestamp TimestampProofs Block BlockProofs Exporter ExporterProofs Properties_C09
-               E2ESpec BlockDecode ViewProofs BlockRead FileProofs EndToEnd TypeCheck.
+               E2ESpec BlockDecode ViewProofs AecView BlockRead FileProofs EndToEnd TypeCheck.
 Local Open Scope N_scope.
 
 (* layer 1 (bytes <-> tree): whatever block value the exporter serialises, the reader's generic structure reader gets the
@@ -99,7 +99,9 @@ Theorem C01_end_to_end : forall pre ops, typed_pre pre -> adm0 pre ops -> typed_
     destroy x = file_bytes last cur /\
     Forall reads_back (rev closed ++ [(last, cur)]) /\
     flat_map file_view_qr (rev closed ++ [(last, cur)]) ++ blk_view_qr (x_blk x) = map Some (log_qr (x_new pre) ops) /\
-    flat_map file_view_mm (rev closed ++ [(last, cur)]) ++ blk_view_mm (x_blk x) = map Some (log_mm (x_new pre) ops).
+    flat_map file_view_mm (rev closed ++ [(last, cur)]) ++ blk_view_mm (x_blk x) = map Some (log_mm (x_new pre) ops) /\
+    (forall k, fold_right (fun pb a => file_aec_total k pb + a) 0 (rev closed ++ [(last, cur)]) + dec_total k (blk_view_aec (x_blk x))
+               = log_aec (x_new pre) ops k).
 Proof. exact end_to_end. Qed.
 Print Assumptions C01_end_to_end.
 
